@@ -256,4 +256,25 @@ def plotLoop {α} (has : α → Bool) : List α → List α
   | [] => []
   | f :: fs => if has f then f :: plotLoop has fs else plotLoop has fs
 
+/-! ### LAS: `LASBase.has_output_mnemonic` / `Plot.hasDataToPlotLAS` -/
+
+/-- `LASBase.hasOutpMnem` = `_find_curve_or_alt_curve(m) != -1`: the curve section holds the mnemonic itself or, when the
+mnemonic is a key of `LASConstants.LGFORMAT_LAS`, one of its listed alternates (`alts m`, `[]` when not a key). -/
+def hasOutpMnemLAS (alts : Nat → List Nat) (curves : List Nat) (m : Nat) : Bool :=
+  if curves.contains m then true else (alts m).any (fun a => curves.contains a)
+
+/-- `Plot.hasDataToPlotLAS(theLasFile, theFilmId)`:
+```
+if theLasFile.number_of_frames() == 0: return False
+if not self._presCfg.hasCurvesForDest(theFilmId): return False
+for anO in self._retOutputChIDs(theFilmId):
+    if theLasFile.hasOutpMnem(anO): return True
+return False
+```
+`outs` are the output channels of the format (`hasCurvesForDest` is `outs ≠ []`). -/
+def hasDataToPlotLAS (alts : Nat → List Nat) (frames : Nat) (outs curves : List Nat) : Bool :=
+  if frames = 0 then false
+  else if outs.isEmpty then false
+  else outs.any (fun o => hasOutpMnemLAS alts curves o)
+
 end TD.C19
